@@ -758,6 +758,8 @@ class Gen:
         c = r.choice(["push", "push", "len", "elem", "reverse", "map", "filter", "join", "index_of"])
         if c == "push":
             self.emit("%s.push(%s)" % (v.name, self.expr(et, 1, need_present=True)))
+            if self.res(et)[0] != "fn":
+                self.observe("%s[%s.len() - 1]" % (v.name, v.name), "pushed-elem:" + self.res(et)[0], et)
         elif c == "len":
             self.observe("%s.len()" % v.name, "list-len", INT)
         elif c == "elem" and v.minlen > 0:
@@ -1104,9 +1106,29 @@ class Gen:
             self.emit("fn set_%s(self, nv: %s) {" % (fnm, ms(ft)))
             self.emit("\tself.%s = nv" % fnm)
             self.emit("}")
+        # a method with parameters whose body reads the fields
+        pt = self.rand_type(1, allow_fn=False, allow_alias=False)     # (before the class knows itself: its own name is not a type inside its body)
+        rt = r.choice(NATS + [opt(INT), open_(STR)])
+        self.classes[name] = c          # visible to the expression generator through `self`
+        self.emit("fn calc(self, q: %s) -> %s {" % (ms(pt), ms(rt)))
+        self.ind += 1
+        self.fn_bases.append(len(self.scopes))
+        self.scopes.append({})
+        self.fn_depth += 1
+        saved = (self.ret_ty, self.loop_depth)
+        self.ret_ty, self.loop_depth = rt, 0
+        self.declare(Var("self", ("class", name), assignable=False))
+        self.declare(Var("q", pt, never_nil=self.res(pt)[0] != "opt", assignable=False))
+        self.emit("return " + self.expr(rt, 2))
+        self.ret_ty, self.loop_depth = saved
+        self.fn_depth -= 1
+        self.scopes.pop()
+        self.fn_bases.pop()
         self.ind -= 1
         self.emit("}")
-        self.classes[name] = c
+        c.methods["calc"] = ([pt], rt)
+        self.ind -= 1
+        self.emit("}")
 
     def program(self):
         r = self.r
